@@ -58,6 +58,7 @@ type oidcCase struct {
 	Cfg        cfgSpec `json:"config"`
 	Tok        tokSpec `json:"token"`
 	HeaderForm string  `json:"header_form,omitempty"`
+	Order      int64   `json:"-"`
 }
 
 const (
@@ -539,28 +540,28 @@ func (e *env) evalOIDC(r *core.Report, c *oidcCase, tok string) error {
 		if has(failed, "sub") && has(c.Cfg.Subjects, "empty") {
 			sig += "/empty-subject-configured"
 		}
-		r.Violate(sig, desc("accepted a token that breaks the statement"), rc)
+		violate(c.Order, sig, desc("accepted a token that breaks the statement"), rc)
 	case !got && want:
-		r.Violate("oidc-rejects-valid", desc("rejected a token that satisfies every rule of the statement"), rc)
+		violate(c.Order, "oidc-rejects-valid", desc("rejected a token that satisfies every rule of the statement"), rc)
 	}
 	if (merr == nil) != got {
-		r.Violate("middleware-disagrees-with-authenticator", desc(fmt.Sprintf("AuthFunc err=%v", merr)), rc)
+		violate(c.Order, "middleware-disagrees-with-authenticator", desc(fmt.Sprintf("AuthFunc err=%v", merr)), rc)
 	}
 	if got && want {
 		wantSub, wantCID := expectedSubject(c.Tok), expectedClientID(c.Cfg, c.Tok)
 		check := func(where string, cl *authclaims.AuthClaims) {
 			if cl == nil {
-				r.Violate("oidc-claims-missing", desc(where+": no claims returned"), rc)
+				violate(c.Order, "oidc-claims-missing", desc(where+": no claims returned"), rc)
 				return
 			}
 			if cl.Subject != wantSub {
-				r.Violate("oidc-wrong-subject", desc(fmt.Sprintf("%s: Subject=%q, token sub=%q", where, cl.Subject, wantSub)), rc)
+				violate(c.Order, "oidc-wrong-subject", desc(fmt.Sprintf("%s: Subject=%q, token sub=%q", where, cl.Subject, wantSub)), rc)
 			}
 			if cl.ClientID != wantCID {
-				r.Violate("oidc-wrong-client-id", desc(fmt.Sprintf("%s: ClientID=%q, token's=%q", where, cl.ClientID, wantCID)), rc)
+				violate(c.Order, "oidc-wrong-client-id", desc(fmt.Sprintf("%s: ClientID=%q, token's=%q", where, cl.ClientID, wantCID)), rc)
 			}
 			if len(cl.Scopes) != 2 || !cl.Scopes["read"] || !cl.Scopes["write"] {
-				r.Violate("oidc-wrong-scopes", desc(fmt.Sprintf("%s: Scopes=%v, token scope=\"read write\"", where, cl.Scopes)), rc)
+				violate(c.Order, "oidc-wrong-scopes", desc(fmt.Sprintf("%s: Scopes=%v, token scope=\"read write\"", where, cl.Scopes)), rc)
 			}
 		}
 		check("Authenticate", claims)
@@ -570,7 +571,7 @@ func (e *env) evalOIDC(r *core.Report, c *oidcCase, tok string) error {
 		}
 	}
 	if !got && merr != nil && mctx != nil {
-		r.Violate("middleware-returns-context-on-reject", desc("AuthFunc returned a context together with an error"), rc)
+		violate(c.Order, "middleware-returns-context-on-reject", desc("AuthFunc returned a context together with an error"), rc)
 	}
 	if c.HeaderForm == "" && c.Cfg.Server == "s1" && len(c.Cfg.Subjects) == 1 && len(c.Cfg.Aliases) == 1 && len(c.Cfg.ClientIDClaims) == 0 && c.Tok.CID == "azp" {
 		class := ""
@@ -690,13 +691,13 @@ func runOIDC(r *core.Report, thorough bool) error {
 	r.Parallel(d.size(), func(i int) {
 		t := d.at(i)
 		toks := map[string]string{} // one assembled token per issuer, presented to every configuration of that issuer
-		for _, c := range cfgs {
+		for ci, c := range cfgs {
 			tok, ok := toks[c.Server]
 			if !ok {
 				tok = e.token(e.issuers[c.Server], t)
 				toks[c.Server] = tok
 			}
-			if err := e.evalOIDC(r, &oidcCase{Cfg: c, Tok: t}, tok); err != nil {
+			if err := e.evalOIDC(r, &oidcCase{Cfg: c, Tok: t, Order: 1<<40 + int64(i)*int64(len(cfgs)) + int64(ci)}, tok); err != nil {
 				setErr(err)
 			}
 		}
@@ -724,6 +725,9 @@ func runOIDC(r *core.Report, thorough bool) error {
 				side = append(side, &oidcCase{Cfg: cfgSpec{Server: "s1", Aliases: []string{"alias1"}, Subjects: []string{}, ClientIDClaims: names}, Tok: t})
 			}
 		}
+	}
+	for i, c := range side {
+		c.Order = 1<<50 + int64(i)
 	}
 	r.Set("oidc_side_cases", len(side))
 	r.Parallel(len(side), func(i int) {
